@@ -231,7 +231,7 @@ func (t *GenericTuple) Canonical() Tuple {
 
 // Hash computes a hash for a GenericTuple.
 func (t *GenericTuple) Hash(seed uintptr) uintptr {
-	return t.tuple.Hash(seed)
+	return finishHash(t.tuple.Hash(seed), seed)
 }
 
 // Equal tests two Tuples for equality. Any other type returns false.
